@@ -500,6 +500,19 @@ func c09Cases(tier string) []c09Case {
 		out = append(out, c09Case{Tree: t})
 		out = append(out, c09Case{Tree: t, Sub: []string{"s1"}})
 		out = append(out, c09Case{Tree: t, Sub: []string{"s", "s-1", "s0"}})
+		// the same layouts with symlink inodes and with fifos that have several names
+		for _, kind := range []fsmodel.Kind{fsmodel.Symlink, fsmodel.Fifo} {
+			tk := t.Clone()
+			for i := range tk {
+				if tk[i].Kind == fsmodel.File {
+					tk[i].Kind, tk[i].Data = kind, nil
+					if kind == fsmodel.Symlink {
+						tk[i].Perm, tk[i].Link = 0777, fmt.Sprintf("../t%d", tk[i].Mtime-fsmodel.T0)
+					}
+				}
+			}
+			out = append(out, c09Case{Tree: tk}, c09Case{Tree: tk, Sub: []string{"s1"}})
+		}
 	}
 	// long names, deep chain, absolute symlinks inside sub-roots
 	long := strings.Repeat("L", 255)
